@@ -203,7 +203,12 @@ DISK_FILTERS = [[], ['-t', 'a0', '-t', 'b1'], ['-t', '(?i)A1 ', '-t', 'b0'],
                 # negated module patterns that match a *package* name only
                 ['-m', '!sub$'], ['-m', '!^vtw$', '-m', r'!\.sub$'], ['-m', 'vtw', '-m', r'!vtw(?!\.sub)'],
                 # module patterns that look at the package prefix
-                ['-m', r'^vtw\.'], ['-m', '!vtw'], ['-m', r'^(amod|sub)']]
+                ['-m', r'^vtw\.'], ['-m', '!vtw'], ['-m', r'^(amod|sub)'],
+                # --test patterns that look at the tail of the id of a plain
+                # unittest.TestCase method: 'test_c0 (vtw.cmod.tests.T_c0.test_c0)'
+                # is the id - not an older spelling of it
+                ['-t', r'T_c0\)$'], ['-t', r'!\.T_c1\)$'], ['-t', 'c', '-t', r'!tests\.T_c0\)'],
+                ['-t', r'c1 \(vtw\.cmod\.tests\.T_c1\.test_c1\)$']]
 DISK_IDS = {'c0': ('test_c0 (vtw.cmod.tests.T_c0.test_c0)', 'vtw.cmod.tests', 'zope.testrunner.layer.UnitTests'),
             'c1': ('test_c1 (vtw.cmod.tests.T_c1.test_c1)', 'vtw.cmod.tests', 'zope.testrunner.layer.UnitTests')}
 for _sp in (DISK_A, DISK_B):
